@@ -65,3 +65,18 @@ Theorem C05_ktuplets_model_kernel : forall l1 maxKB idx start stop,
   = tuplets_of_set idx (primes_between start stop).
 Proof. exact ktuplets_model. Qed.
 Print Assumptions C05_ktuplets_model_kernel.
+
+(** bit level: the byte values of the sieve array after the cross-off (all ones AND the unset masks applied to the byte)
+    have bit b set iff the pair (byte, mask b) was not cleared; for a full segment the numbers of the set bits are exactly
+    the primes of the segment and the masks find exactly the constellations of those primes *)
+From PS Require Import Proofs.BytesP Proofs.KernelLoopP.
+Theorem C05_byte_values : forall cleared j b, masks_are_bits cleared -> b < 8 ->
+  N.testbit (byte_val cleared j) b = negb (pair_mem j (bitmask b) cleared).
+Proof. exact byte_val_bit. Qed.
+Print Assumptions C05_byte_values.
+Theorem C05_full_segment_tuplets : forall idx sg cleared, (1 <= idx <= 5)%nat ->
+  k_low sg mod 30 = 0 -> seg_result_ok (sg, cleared) -> masks_are_bits cleared -> k_low sg + 30 * k_size sg + 1 <= k_high sg ->
+  segment_tuplets (nth idx kBitmasks []) (k_low sg) (sieve_bytes sg cleared)
+  = tuplets_of_set idx (primes_between (k_low sg + 7) (k_low sg + 30 * k_size sg + 1)).
+Proof. exact full_segment_tuplets. Qed.
+Print Assumptions C05_full_segment_tuplets.
